@@ -32,6 +32,7 @@ from .spec import (
     Opaque,
     S,
     SigT,
+    TupleOf,
     _Bool,
     _Int,
     _IntList,
@@ -98,6 +99,13 @@ class ObjV:
         self.cls = cls
         self.fields = fields if fields is not None else {}
         self.model = model
+
+
+class MethodHook:
+    """A modelled method of an opaque value: fn(engine, obj, *args) -> value."""
+
+    def __init__(self, fn):
+        self.fn = fn
 
 
 class Closure:
@@ -194,6 +202,8 @@ def py_type_of(v):
 
 
 def is_symbolic(v):
+    if isinstance(v, (tuple, list)):
+        return any(is_symbolic(x) for x in v)
     return isinstance(v, (z3.ExprRef, ListV, OpaqueV, ObjV, Closure, BoundM, ExcV))
 
 
@@ -272,8 +282,13 @@ class Engine:
             return ListV(LLeaf(z3.Array(name + ".arr", z3.IntSort(), z3.IntSort()), n, name))
         if isinstance(t, Const):
             return t.value
+        if isinstance(t, TupleOf):
+            return tuple(self.make_arg(f"{name}.{i}", e) for i, e in enumerate(t.elts))
         if isinstance(t, Opaque):
-            return OpaqueV(t.pytype, z3.Int(name + ".id"), dict(t.fields))
+            fields = {}
+            for fk, fv in t.fields.items():
+                fields[fk] = self.make_arg(f"{name}.{fk}", fv) if isinstance(fv, SigT) else fv
+            return OpaqueV(t.pytype, z3.Int(name + ".id"), fields)
         if isinstance(t, Model):
             return t.maker(self, name, **t.kw)
         raise Unsupported(f"sig type {t}")
@@ -1210,8 +1225,7 @@ class Engine:
             if isinstance(op, ast.Div):
                 if self.decide(b == 0):
                     raise PyRaise(ZeroDivisionError, None)
-                self.assumption_notes.add("int/int true division modelled as exact real division (no IEEE rounding)")
-                return z3.ToReal(a) / z3.ToReal(b)
+                return self.float_div(a, b)
             if isinstance(op, ast.Pow):
                 bb = simp_int(b)
                 if L.is_conc_int(bb) and 0 <= bb <= 8:
@@ -1220,6 +1234,21 @@ class Engine:
                         r = r * a
                     return simp_int(r)
         raise Unsupported(f"binop {type(op).__name__} on {ta.__name__},{tb.__name__}")
+
+    def float_div(self, a, b):
+        """a / b on ints: a float.  Modelled as a real q with relative error <= 2**-53 that is exact
+        when the quotient is an integer below 2**53 (IEEE-754 binary64 round-to-nearest of the
+        exact quotient; CPython's long true division is correctly rounded)."""
+        self.assumption_notes.add(
+            "int/int true division: result q with |q - a/b| <= |a/b|*2**-53 and q = a/b when b divides a "
+            "(correct rounding of CPython long division, binary64; overflow beyond 2**1023 not modelled)")
+        q = self.fresh("fdiv", "real")
+        exact = z3.ToReal(a) / z3.ToReal(b)
+        eps = z3.RealVal(1) / z3.RealVal(2 ** 53)
+        mag = z3.If(exact >= 0, exact, -exact)
+        self.pc.append(z3.And(q - exact <= mag * eps, exact - q <= mag * eps))
+        self.pc.append(z3.Implies(a % b == 0, q == exact))
+        return q
 
     def str_repeat(self, s, n):
         n = simp_int(self.num(n))
@@ -1494,7 +1523,7 @@ class Engine:
         if py_type_of(obj) is str:
             s = lift(obj)
             i = self.norm_index(z3.Length(s), idx)
-            return z3.SubString(s, zint(i), z3.IntVal(1))
+            return mk_substr(s, i, 1)
         if isinstance(obj, ObjV) and obj.model is not None:
             return obj.model.getitem(self, obj, idx)
         raise Unsupported(f"subscript of {type(obj).__name__}")
@@ -1508,6 +1537,15 @@ class Engine:
             return ListV(L.slice_term(obj.term, self.num(lo), self.num(hi)))
         if py_type_of(obj) is str:
             s = lift(obj)
+            lo_, hi_ = simp_int(self.num(lo)) if lo is not None else 0, simp_int(self.num(hi)) if hi is not None else None
+            if L.is_conc_int(lo_) and lo_ >= 0 and (hi_ is None or L.is_conc_int(hi_)):
+                # str.substr truncates exactly like a Python slice for these shapes
+                n = z3.Length(s)
+                if hi_ is None:
+                    return mk_substr(s, lo_, n) if lo_ else s
+                if hi_ >= 0:
+                    return mk_substr(s, lo_, max(0, hi_ - lo_))
+                return mk_substr(s, lo_, n + hi_ - lo_)
             lo2, hi2 = L.clamp_slice(z3.Length(s), self.num(lo), self.num(hi))
             return z3.SubString(s, zint(lo2), zint(simp_int(zint(hi2) - zint(lo2))))
         raise Unsupported(f"slice of {type(obj).__name__}")
@@ -1579,9 +1617,11 @@ class Engine:
                 return BoundM(obj, name, static)
             return static
         if isinstance(obj, OpaqueV):
-            f = obj.fields.get(name)
-            if f is not None:
-                return f(self, obj) if callable(f) else f
+            if name in obj.fields:
+                f = obj.fields[name]
+                if isinstance(f, MethodHook):
+                    return BoundM(obj, name, f)
+                return f
             static = inspect.getattr_static(obj.pytype, name, None)
             if static is None:
                 raise PyRaise(AttributeError, name)
@@ -1645,6 +1685,8 @@ class Engine:
             return self.call_ast(fn.node, fn.frame, fn.frame.globals, args, kwargs)
         if isinstance(fn, BoundM):
             recv = fn.recv
+            if isinstance(fn.func, MethodHook):
+                return fn.func.fn(self, recv, *args, **kwargs)
             if fn.func is not None:
                 return self.call(fn.func, [recv] + list(args), kwargs)
             return BM.call_method(self, recv, fn.name, args, kwargs)
@@ -1820,6 +1862,20 @@ class SymRange:
 
 def short(target):
     return target.split(":")[-1]
+
+
+def mk_substr(s, lo, ln):
+    """SubString with flattening of substrings of suffixes: (s0[a:])[lo:lo+ln] = s0[a+lo:a+lo+ln]."""
+    lo = simp_int(lo)
+    if z3.is_app_of(s, z3.Z3_OP_SEQ_EXTRACT) and L.is_conc_int(lo) and lo >= 0:
+        s0, a, la = s.arg(0), z3.simplify(s.arg(1)), z3.simplify(s.arg(2))
+        if z3.is_int_value(a) and a.as_long() >= 0 and la.eq(z3.simplify(z3.Length(s0))):
+            return mk_substr(s0, a.as_long() + lo, ln)
+        ln_ = simp_int(ln)
+        if (z3.is_int_value(a) and a.as_long() >= 0 and z3.is_int_value(la) and L.is_conc_int(ln_)
+                and ln_ >= 0 and lo + ln_ <= la.as_long()):
+            return mk_substr(s0, a.as_long() + lo, ln_)
+    return z3.SubString(s, zint(lo), zint(ln))
 
 
 def real_trunc(a):
